@@ -364,3 +364,33 @@ package parser2
 //@   safety C04
 //@   ensures[resolves] result1 && result0.Name == name
 //@   ensures[attribute] !result0.IsConst ==> result0.Name == name && result0.ThisName == this
+
+// ---------------------------------------------------------------- AST accessors used by the code generator
+//@ interface-contract AST.GetLine
+//@   option no-impl-check
+//@   assigns nothing
+// String renders a node for messages (trusted: no effect on program state)
+//@ interface-contract AST.String
+//@   option no-impl-check
+//@   assigns nothing
+//@ func (f *FunctionCall) String
+//@   trusted
+//@   assigns nothing
+
+// ---------------------------------------------------------------- AST structure: nodes are non-nil pointers with all children present
+// (proved wherever a node is converted to the AST interface in a function under contract, assumed at type switches)
+//@ type-invariant Let: self != nil && self.Value != nil && self.Inner != nil
+//@ type-invariant If: self != nil && self.Cond != nil && self.Then != nil && self.Else != nil
+//@ type-invariant TryCatch: self != nil && self.Try != nil && self.Catch != nil
+//@ type-invariant Switch: self != nil && self.SwitchValue != nil && self.Default != nil && (forall i in 0..len(self.Cases) :: self.Cases[i].CaseConst != nil && self.Cases[i].Value != nil)
+//@ type-invariant Operate: self != nil && self.A != nil && self.B != nil
+//@ type-invariant Unary: self != nil && self.Value != nil
+//@ type-invariant MapAccess: self != nil && self.MapValue != nil
+//@ type-invariant MethodCall: self != nil && self.Value != nil && (forall i in 0..len(self.Args) :: self.Args[i] != nil)
+//@ type-invariant ListAccess: self != nil && self.Index != nil && self.List != nil
+//@ type-invariant ClosureLiteral: self != nil && self.Func != nil
+//@ type-invariant MapLiteral: self != nil
+//@ type-invariant ListLiteral: self != nil && (forall i in 0..len(self.List) :: self.List[i] != nil)
+//@ type-invariant Ident: self != nil
+//@ type-invariant Const: self != nil
+//@ type-invariant FunctionCall: self != nil && self.Func != nil && (forall i in 0..len(self.Args) :: self.Args[i] != nil)
